@@ -32,10 +32,11 @@ class M:
     new: str
     expect: Optional[str] = None  # rule id; None = twin (must stay silent)
     count: int = 1  # how many occurrences of `old` are expected (all are replaced)
+    more: tuple = ()  # further (old, new) replacements in the same file (each must occur exactly once)
 
 
 def _run_one(args):
-    pid, repo, m_name, file, old, new, expect, count, baseline_keys = args
+    pid, repo, m_name, file, old, new, expect, count, baseline_keys, more = args
     import importlib
     import sys
 
@@ -55,6 +56,10 @@ def _run_one(args):
     if src.count(old) != count:
         return (m_name, "n/a", f"anchor occurs {src.count(old)}x (expected {count})")
     mutated = src.replace(old, new)
+    for o2, n2 in more:
+        if mutated.count(o2) != 1:
+            return (m_name, "n/a", f"secondary anchor occurs {mutated.count(o2)}x")
+        mutated = mutated.replace(o2, n2)
     mod = importlib.import_module(f"fdg_static.rules.{pid.lower()}")
     try:
         eng = Engine(repo, overlay={file: mutated})
@@ -85,7 +90,7 @@ def run_mutants(chk, mod, repo: str, jobs: int = 16) -> None:
     if not muts:
         return
     baseline = frozenset(v.key for v in chk.violations)
-    tasks = [(chk.pid, repo, m.name, m.file, m.old, m.new, m.expect, m.count, baseline) for m in muts]
+    tasks = [(chk.pid, repo, m.name, m.file, m.old, m.new, m.expect, m.count, baseline, tuple(m.more)) for m in muts]
     results = []
     with cf.ProcessPoolExecutor(max_workers=max(1, min(jobs, len(tasks)))) as ex:
         for r in ex.map(_run_one, tasks):
